@@ -12,5 +12,11 @@ CONFIG = {
         "verif hook ByteRangeLockSet.VerifEntries (read-only list dump)",
         "Go harness, Gallina printer, case evaluator Corr.v (P on implementation traces)",
     ],
+    "manifest": {
+        "level_text": "Theorems in Coq about a transcription of ByteRangeLockSet.Set/Test for all lock tables and requests (no bound on entries, owners or offsets), tied to the Go code by a differential correspondence check whose oracle is the proved model and whose monitor is the proved predicate P.",
+        "level_note": "Trusted: Coq kernel+VM, hand-written model (checked by correspondence on generated histories), Go harness and verif dump hook. uint64 as N.",
+        "technique": "machine-checked proof in Coq (induction over the list walks of Set/Test, invariant over all histories) + model/implementation correspondence evaluated with vm_compute",
+        "design_ref": "DESIGN.md §4 NFS/C20",
+    },
     "assumptions": ["uint64 offsets modelled as N (only comparisons, no arithmetic in Set/Test)"],
 }
